@@ -162,3 +162,32 @@ def register(reg):
     for c in (InitSizeGet(), InitSizeSet(), BlockAddress(), ContainsOffset(), ContainsAddress(), BlockContents(),
               IntervalSizeSet()):
         reg.add(c)
+
+
+class IntervalCtorGuard(Contract):
+    """guard contract (prefix of ByteInterval.__init__): more initialized bytes than size is rejected with ValueError before
+    anything is constructed (size and initialized_size default to the number of content bytes)"""
+    target = "byteinterval.py::ByteInterval.__init__"
+    props = PROPS + ("C17",)
+    variant = "guard"
+    params = {"self": "ref:ByteInterval", "address": "val", "size": "optint", "initialized_size": "optint", "contents": "blob",
+              "blocks": "val", "symbolic_expressions": "val", "uuid": "val", "section": "val"}
+    modifies = ()
+    prefix_until = staticmethod(lambda src: src.startswith("super().__init__("))
+
+    def selects(self, self_cls, args, kwargs=None):
+        return False
+
+    def raises(self, c0, a):
+        n = z3.Length(a.contents.t)
+        sz = z3.If(is_VNone(to_val(a.size)), n, ival(to_val(a.size)))
+        ini = z3.If(is_VNone(to_val(a.initialized_size)), n, ival(to_val(a.initialized_size)))
+        return {"ValueError": ini > sz}
+
+
+_reg_bv = register
+
+
+def register(reg):      # noqa: F811
+    _reg_bv(reg)
+    reg.add(IntervalCtorGuard())
